@@ -12,6 +12,15 @@ CHECKS = {
  "C03": ("reference-model + round-trip monitors over exhaustive small depths and class-sampled deep depths (runtime oracle)",
          "Every accessor result (centre, sph_coo, 3 vertex accessors, edge/side paths, grids, hash_with_dxdy) for all cells of depths <= 5/8 and class-sampled cells up to depth 29, plus hash_with_dxdy on the hostile position set x 30 depths, is judged against the independent cell geometry and by hashing back; bad cell numbers must panic.",
          "trusted: refm.rs geometry; Layer::hash as point locator for inward-nudged points (judged by C01)", "DESIGN.md §4 C03"),
+ "C04": ("geometric adjacency monitor: stars of reference-located points around reference vertices / edge midpoints (runtime oracle)",
+         "For all cells of small depths and every seam class of every deeper depth up to 29 the neighbour map is compared with the cells found geometrically around each vertex and edge midpoint by an independent point-location model (set, labels, counts 8/7/6, symmetry, neighbour() agreement, include_center, rejection of out-of-range cells).",
+         "trusted: refm.rs point location; ambiguous stars make the cell inconclusive", "DESIGN.md §4 C04"),
+ "C10": ("exhaustive bijection + ordering monitor on small depths, ring-boundary classes deeper; reference = integer RING decode",
+         "All RING/NESTED indices of depths <= 8 (quick) / <= 10 (thorough) and ring-boundary classes of depths up to 29 are pushed through to_ring/from_ring/ring::center and judged against an exact-integer RING decoder, the reference cell centres and the ordering rule.",
+         "trusted: refm.rs ring_decode (u128 + integer sqrt), reference centres", "DESIGN.md §4 C10"),
+ "C11": ("reference-model monitor over every cell of small nsides, boundary classes of 40 hostile nsides, and hostile positions (runtime oracle)",
+         "ring::center/vertices/sph_coo/hash/hash_with_dxdy for every cell of nside 1..40 (1..300 thorough), ring-boundary classes of primes / 2^k+-1 / huge nsides up to 2^29, and the hostile position set x 41 nsides are judged against the integer RING decoder and reference projection: containment, ordering, ring sizes, round trips, rejections.",
+         "trusted: refm.rs ring_decode + projection; containment tolerance 1e-14 plane units", "DESIGN.md §4 C11"),
  "C17": ("reference-model monitor (independent Calabretta-Roukema formulae) + round-trip monitors, both directions",
          "proj/unproj/base_cell_from_proj_coo outputs for millions of generated sphere positions and plane points (facet boundaries, |y| in {1,2}, poles +-ulps, negative and >2pi longitudes) are judged against an independent projection model, round-trips and range/sign rules; out-of-range arguments must panic.",
          "trusted: refm.rs reference projection (cross-checked with mpmath); a facet-boundary point has two admissible images, either is accepted", "DESIGN.md §4 C17"),
